@@ -113,7 +113,7 @@ def build_pool(rng, u, reg, n):
             add(pel, "noplugins-creator", toks=toks)
     # context families: the SAME payload / ids under different contexts (drawer type, creator, SRC type, chip model), so
     # that anything remembered from one context and replayed in another shows up as history dependence
-    for fam in rng.sample(range(4), 2):
+    for fam in rng.sample(range(5), 2):
         if fam == 0:
             from vf import iogen, iomodels as im
             from io_drawer.drawer_type import MEX_DRAWER_TYPE, NIMITZ_DRAWER_TYPE
@@ -144,6 +144,19 @@ def build_pool(rng, u, reg, n):
                 pel, toks = mk(lambda: pm.Pel(c, pm.gen_ph(rng, u, c), pm.gen_uh(rng, c),
                                               [pm.gen_src(rng, u, True, c, srctype=t, refcode=ref), pm.gen_mt(rng, u, c)]))
                 add(pel, "registry:%s" % t, group="registry", toks=toks)
+        elif fam == 4:
+            # one (section creator, component) pair met in different PLACES: as user data of that creator's own PEL, and as
+            # extended user data carried inside PELs of other creators (who may or may not have a parser for the component)
+            from vf import iogen
+            comp, sub = rng.choice([(0x2C00, 72), (0x2C00, 73), (0xE500, 1), (0xFA00, 7), (0x3000, 1)])
+            payload = bytes(rng.randrange(256) for _ in range(48)) if comp != 0xFA00 else b"K" + bytes(rng.randrange(256) for _ in range(20))
+            sec_creator = rng.choice("OBMX")
+            for pel_creator, ext in ((sec_creator, False), ("M", True), ("O", True), ("B", True), (sec_creator, False)):
+                pel, toks = mk(lambda: pm.Pel(pel_creator, pm.gen_ph(rng, u, pel_creator), pm.gen_uh(rng, pel_creator),
+                                              [pm.sec_ud(rng, u, pel_creator, comp, sub, 1, payload,
+                                                         ext_creator=sec_creator if ext else None, expect_mode="none"),
+                                               pm.gen_mt(rng, u, pel_creator)]))
+                add(pel, "placement:%s%04x-in-%s-%s" % (sec_creator, comp, pel_creator, "ED" if ext else "UD"), group="placement", toks=toks)
         else:
             from vf.props import c20
             b0 = bytes(rng.randrange(256) for _ in range(8))
